@@ -248,7 +248,12 @@ pub fn run(ctx: &Ctx) {
         let mut ev = 0u64;
         let mut nt = 0u64;
         for i in 0..per_cell {
+            // every fifth pair of an envelope cell: a far power of two (exact in both float types and far from
+            // overflow / underflow: 2^-30 of a parameter >= 1e-3 squared is still > 2^-126), so that absolute
+            // thresholds on a scaled quantity are crossed (seeded change R7-C07-2)
+            let far = !*extreme && i % 5 == 4 && !matches!(cell.fam, Fam::InverseGaussian | Fam::LogNormal);
             let b = match r.random_range(0..4) {
+                _ if far => 2f64.powi(r.random_range(9..=30) * if r.random_range(0..2) == 0 { -1 } else { 1 }),
                 0 | 1 => 2f64.powi(r.random_range(-8..=8)),
                 _ => (r.random::<f64>() * 13.8 - 6.9).exp(),
             };
